@@ -269,7 +269,8 @@ class CompiledSimulation(object):
                 expected = int(expected)
                 actual = self.inspect(expvar)
                 if expected != actual:
-                    failed.append((i, expvar, expected, actual))
+                    name = expvar.name if isinstance(expvar, WireVector) else expvar
+                    failed.append((i, name, expected, actual))
 
             if failed and stop_after_first_error:
                 break
